@@ -543,6 +543,30 @@ func (c *simClient) LookupServerKeys(ctx context.Context, via spec.ServerName, r
 		recs = append(recs, rr)
 		out = append(out, rr.keys)
 	}
+	if !isNotary && len(out) > 0 && t.Chance(c.faultRate) {
+		// A server asked about itself adds a response that names ANOTHER server,
+		// self-signed with a key of its own making (under that server's genuine
+		// key ID or a new one). Nobody the client trusts vouches for it: only
+		// what the server says about itself may be taken from this answer.
+		var cands []*world.Server
+		for _, o := range c.w.origins {
+			if !names[o.Name] && o != n {
+				cands = append(cands, o)
+			}
+		}
+		if len(cands) > 0 {
+			o := sim.Pick(t, cands)
+			forged := *c.w.rogue.Current()
+			forged.ID = sim.Pick(t, []gmsl.KeyID{o.Current().ID, "ed25519:invented"})
+			forged.From = time.Unix(0, 0)
+			fake := &world.Server{Name: o.Name, Keys: []*world.Key{&forged}, ValidFor: 1000 * time.Hour}
+			rr := &respRec{kind: "forged_other_server", server: o.Name, keys: fake.KeyResponse(time.Now())}
+			at := t.Intn(len(out) + 1)
+			out = append(out[:at], append([]gmsl.ServerKeys{rr.keys}, out[at:]...)...)
+			recs = append(recs[:at], append([]*respRec{rr}, recs[at:]...)...)
+			c.w.r.Fault("forged_response_for_another_server")
+		}
+	}
 	c.w.r.Logf("  %s[%s] -> %d responses %s", label, task, len(out), kinds(recs))
 	if len(recs) == 0 {
 		recs = []*respRec{{kind: "none"}}
